@@ -17,7 +17,7 @@ from . import facts
 VERIF = os.path.dirname(os.path.dirname(os.path.abspath(__file__)))
 REPO = os.environ.get('VERIF_REPO', '/repo')
 MEMFACTS = os.path.join(VERIF, 'tool', 'memfacts')
-CACHE = os.path.join(VERIF, '.cache')
+CACHE = os.environ.get('VERIF_CACHE', os.path.join(VERIF, '.cache'))
 
 
 class AnalysisBroken(Exception):
